@@ -493,4 +493,132 @@ example : ClaimInv genesisSys.hub ∧ genesisSys.hub.legacy = [] :=
   ⟨ClaimInv.of_same (h := (hubInit 1 0 30 100 0 D 1 3).toOption.getD default) ⟨rfl, rfl, rfl, rfl, rfl, rfl, rfl⟩
     (C07_init 1 0 30 100 0 D 1 3 _ rfl), rfl⟩
 
+
+/-! ### the AllHistory read path -/
+
+/-- ids on a page ascend strictly -/
+theorem allHistory_sorted (h : HubSt) (start limit : Option Nat) :
+    (h.allHistory start limit).Pairwise (fun p q => p.1 < q.1) := by
+  unfold HubSt.allHistory
+  apply List.Pairwise.sublist (List.take_sublist _ _)
+  rw [List.pairwise_filterMap]
+  apply List.Pairwise.imp _ (List.Pairwise.filter _ (List.pairwise_lt_range (n := h.batchId + 1)))
+  intro a b hab p hp q hq
+  cases ha : h.hist a with
+  | none => rw [ha] at hp; cases hp
+  | some x =>
+    cases hb : h.hist b with
+    | none => rw [hb] at hq; cases hq
+    | some y =>
+      rw [ha] at hp; rw [hb] at hq
+      simp only [Option.map_some, Option.mem_def, Option.some.injEq] at hp hq
+      subst hp; subst hq; exact hab
+
+/-- **AllHistory reports faithfully (soundness).** Every entry on a page is a stored history entry,
+    reported under its own batch id with exactly the stored fields, and lies above `start_from`. -/
+theorem C07_allHistory_faithful (h : HubSt) (start limit : Option Nat) (i : Nat) (x : History)
+    (hm : (i, x) ∈ h.allHistory start limit) :
+    h.hist i = some x ∧ i ≤ h.batchId ∧ (∀ s, start = some s → s < i) := by
+  unfold HubSt.allHistory at hm
+  have hm' := List.mem_of_mem_take hm
+  rw [List.mem_filterMap] at hm'
+  obtain ⟨j, hj, hjx⟩ := hm'
+  rw [List.mem_filter, List.mem_range] at hj
+  cases hh : h.hist j with
+  | none => rw [hh] at hjx; cases hjx
+  | some y =>
+    rw [hh] at hjx
+    simp only [Option.map_some, Option.some.injEq, Prod.mk.injEq] at hjx
+    obtain ⟨rfl, rfl⟩ := hjx
+    refine ⟨hh, by omega, ?_⟩
+    intro s hs; subst hs
+    simpa [aboveStart] using hj.2
+
+/-- a sorted list cut by `take`: what is missing lies after a full page -/
+theorem take_sorted_miss {α : Type} (key : α → Nat) (l : List α) (n : Nat)
+    (hs : l.Pairwise (fun p q => key p < key q)) (a : α) (ha : a ∈ l) (hn : a ∉ l.take n) :
+    (l.take n).length = n ∧ ∀ p ∈ l.take n, key p < key a := by
+  have hsplit : l.take n ++ l.drop n = l := List.take_append_drop n l
+  have hd : a ∈ l.drop n := by
+    rw [← hsplit, List.mem_append] at ha
+    cases ha with
+    | inl h => exact absurd h hn
+    | inr h => exact h
+  constructor
+  · rw [List.length_take]
+    have : n < l.length := by
+      apply Nat.lt_of_not_le
+      intro hc
+      rw [List.drop_eq_nil_of_le hc] at hd
+      cases hd
+    omega
+  · intro p hp
+    rw [← hsplit, List.pairwise_append] at hs
+    exact hs.2.2 p hp a hd
+
+/-- **AllHistory reports faithfully (completeness).** A stored entry above `start_from` is on the
+    page, unless the page is full (`min (limit or 10) 100` entries) and ends before it — so a
+    reader who pages with `start_from :=` the last id seen, from any starting point that is not
+    above an entry, sees every stored entry exactly once and in order. -/
+theorem C07_allHistory_complete (h : HubSt) (start limit : Option Nat) (i : Nat) (x : History)
+    (hx : h.hist i = some x) (hi : i ≤ h.batchId) (hs : ∀ s, start = some s → s < i) :
+    (i, x) ∈ h.allHistory start limit ∨
+    ((h.allHistory start limit).length = min (limit.getD 10) 100 ∧
+      ∀ p ∈ h.allHistory start limit, p.1 < i) := by
+  by_cases hm : (i, x) ∈ h.allHistory start limit
+  · exact Or.inl hm
+  · right
+    have hsorted : (((List.range (h.batchId + 1)).filter (aboveStart start)).filterMap (fun i => (h.hist i).map (fun x => (i, x)))).Pairwise
+        (fun p q => p.1 < q.1) := by
+      rw [List.pairwise_filterMap]
+      apply List.Pairwise.imp _ (List.Pairwise.filter _ (List.pairwise_lt_range (n := h.batchId + 1)))
+      intro a b hab p hp q hq
+      cases ha : h.hist a with
+      | none => rw [ha] at hp; cases hp
+      | some x =>
+        cases hb : h.hist b with
+        | none => rw [hb] at hq; cases hq
+        | some y =>
+          rw [ha] at hp; rw [hb] at hq
+          simp only [Option.map_some, Option.mem_def, Option.some.injEq] at hp hq
+          subst hp; subst hq; exact hab
+    have hin : (i, x) ∈ ((List.range (h.batchId + 1)).filter (aboveStart start)).filterMap (fun i => (h.hist i).map (fun x => (i, x))) := by
+      rw [List.mem_filterMap]
+      refine ⟨i, ?_, by rw [hx]; rfl⟩
+      rw [List.mem_filter, List.mem_range]
+      refine ⟨by omega, ?_⟩
+      cases start with
+      | none => rfl
+      | some s => simpa [aboveStart] using hs s rfl
+    unfold HubSt.allHistory at hm ⊢
+    exact take_sorted_miss (fun p => p.1) _ _ hsorted (i, x) hin hm
+
+theorem filterMap_filter_congr {α β : Type} (f : α → Option β) (p q : α → Bool) (l : List α)
+    (hpq : ∀ a ∈ l, f a ≠ none → p a = q a) :
+    (l.filter p).filterMap f = (l.filter q).filterMap f := by
+  induction l with
+  | nil => rfl
+  | cons a l ih =>
+    have ih' := ih (fun b hb => hpq b (List.mem_cons_of_mem _ hb))
+    cases hf : f a with
+    | none =>
+      rw [List.filter_cons, List.filter_cons]
+      cases p a <;> cases q a <;> simp [List.filterMap_cons, hf, ih']
+    | some y =>
+      have := hpq a (List.mem_cons_self ..) (by rw [hf]; exact fun h => nomatch h)
+      rw [List.filter_cons, List.filter_cons, this]
+      cases q a <;> simp [List.filterMap_cons, hf, ih']
+
+/-- the first page from the start (`start_from` omitted or 0 — batch ids begin at 1) begins with the
+    oldest stored entry: nothing is skipped at the front -/
+theorem C07_allHistory_from_zero (h : HubSt) (limit : Option Nat) (hz : h.hist 0 = none) :
+    h.allHistory (some 0) limit = h.allHistory none limit := by
+  unfold HubSt.allHistory
+  congr 1
+  apply filterMap_filter_congr
+  intro a _ hne
+  cases a with
+  | zero => rw [hz] at hne; exact absurd rfl hne
+  | succ n => simp [HubSt.aboveStart]
+
 end Krp
